@@ -413,6 +413,30 @@ func (t *vtree) corrupt(rng *rand.Rand, v *vblk) *vblk {
 	return c
 }
 
+// corruptHeader: a copy of v whose HEADER breaks one consensus rule relative to its parent (difficulty, timestamp, extra-data
+// length, gas limit step); the body is untouched
+func (t *vtree) corruptHeader(rng *rand.Rand, v *vblk) *vblk {
+	h := types.CopyHeader(v.b.Header())
+	kind := []string{"h-difficulty", "h-time", "h-extra", "h-gaslimit", "h-gasused"}[rng.Intn(5)]
+	switch kind {
+	case "h-difficulty":
+		h.Difficulty = new(big.Int).Add(h.Difficulty, big.NewInt(1))
+	case "h-time":
+		h.Time = new(big.Int).Set(v.parent.b.Time())
+	case "h-extra":
+		h.Extra = make([]byte, 33)
+	case "h-gaslimit":
+		pl := v.parent.b.GasLimit()
+		h.GasLimit = pl + pl/1024
+	case "h-gasused":
+		h.GasUsed = h.GasLimit + 1
+	}
+	nb := types.NewBlockWithHeader(h).WithBody(v.b.Transactions(), v.b.Uncles())
+	c := &vblk{id: fmt.Sprintf("x%d", len(t.blocks)), b: nb, parent: v.parent, valid: false, corrupt: kind, rsig: "-", ssig: "-"}
+	t.blocks = append(t.blocks, c)
+	return c
+}
+
 // JSON description of the tree for the trace header
 type vblkJSON struct {
 	ID      string   `json:"id"`
